@@ -1,0 +1,59 @@
+//go:build verif
+
+package vgirpc
+
+import "time"
+
+// Verification hooks for property C25 (proxy-proof gate and nonce replay cache).
+// Add-only wrappers around unexported internals of proof.go; compiled only with -tags verif.
+
+// VerifC25Cache wraps the unexported nonce cache with a settable clock.
+type VerifC25Cache struct {
+	c   *nonceCache
+	now time.Time
+}
+
+// VerifC25NewCache builds a nonce cache through the package constructor.
+func VerifC25NewCache(ttl time.Duration, capacity int) *VerifC25Cache {
+	v := &VerifC25Cache{}
+	v.c = newNonceCache(ttl, capacity, func() time.Time { return v.now })
+	return v
+}
+
+// CheckAndAdd runs checkAndAdd with the cache clock reading `now`.
+func (v *VerifC25Cache) CheckAndAdd(nonce string, now time.Time) bool {
+	v.now = now
+	return v.c.checkAndAdd(nonce)
+}
+
+// Verify runs VerifyProof against this cache (nil receiver: no cache).
+func (v *VerifC25Cache) Verify(token string, cfg *ProofConfig) error {
+	var c *nonceCache
+	if v != nil {
+		c = v.c
+	}
+	_, err := VerifyProof(token, cfg, c)
+	return err
+}
+
+// VerifC25Entry is one remembered nonce.
+type VerifC25Entry struct {
+	Nonce     string
+	ExpiresAt time.Time
+}
+
+// Entries lists the cache oldest first; consistent reports whether the lookup map mirrors
+// the list exactly (same size, every list element indexed under its nonce).
+func (v *VerifC25Cache) Entries() (out []VerifC25Entry, consistent bool) {
+	v.c.mu.Lock()
+	defer v.c.mu.Unlock()
+	consistent = len(v.c.entries) == v.c.order.Len()
+	for e := v.c.order.Front(); e != nil; e = e.Next() {
+		ne := e.Value.(*nonceEntry)
+		out = append(out, VerifC25Entry{Nonce: ne.nonce, ExpiresAt: ne.expiresAt})
+		if v.c.entries[ne.nonce] != e {
+			consistent = false
+		}
+	}
+	return out, consistent
+}
